@@ -23,6 +23,7 @@ def _verify_c(job):
     t0 = time.time()
     out = {"file": fname, "function": func, "obligations": [], "error": None, "error_kind": None,
            "info": None, "assumptions": [], "gen_s": 0.0}
+    ex = None
     try:
         reg = registry.load_all()
         errs = registry.Errs()
@@ -87,6 +88,25 @@ def _verify_c(job):
     except cvc.ContractMismatch as e:
         out["error"] = "contract no longer applies: %s" % e
         out["error_kind"] = "mismatch"
+        # the body no longer has the shape the loop invariants were written for: fall back to testing the
+        # contract's pre/postcondition on the real function over small solver-drawn inputs (bounded)
+        try:
+            from vf import cct
+            if ex is not None and getattr(ex, "entry", None) is not None:
+                r = cct.run(ex, n_inputs=40, seed=int(os.environ.get("VERIF_SEED", "0")))
+                out["cct"] = {k_: v_ for k_, v_ in r.items() if k_ != "violations"}
+                if r["violations"]:
+                    v = r["violations"][0]
+                    out["obligations"].append({
+                        "name": "%s:%s/CONTRACT-TEST" % (fname, func), "kind": "CCT", "status": "failed",
+                        "backend": "concrete-contract-test", "time_s": 0.0,
+                        "output": "contract clause false on the real function for a small input (bounded search)",
+                        "replay": v, "goal": v.get("reason")})
+                    out["error"] = None
+                    out["error_kind"] = None
+                    out["note"] = "contract shape mismatch (%s); decided by concrete contract testing" % e
+        except Exception as e2:
+            out["cct_error"] = "%s" % e2
     except cvc.Unsupported as e:
         out["error"] = "unsupported construct: %s" % e
         out["error_kind"] = "unsupported"
